@@ -8,6 +8,7 @@
   call, every other variable keeps its value.
 -/
 import MpirProofs.Lemmas.AliasShift
+import MpirProofs.Lemmas.AliasBits
 namespace Mpir.AliasMem
 open Mpir
 
@@ -45,5 +46,59 @@ example : look2 (tdiv_q_2exp 1 1 64 exSt2) 2 = .ok [(2 ^ 200 + 12345, 4, 0), (-6
 -- negative example: the model refuses a shift in the forbidden direction (what an in-place mpn_lshift towards LOWER
 -- addresses would be)
 example : (match mpn_lshift 0 0 0 1 3 5 exSt2 with | .error e => e | .ok _ => "ok") = "ub:mpn_lshift overlap" := by decide
+
+/-! ## mpz_and, mpz_xor, mpz_com (and the plumbing shared with mpz_ior) -/
+
+/-- mpz_and (mpz/and.c), every choice of res, op1, op2 (res = op1, res = op2, op1 = op2, all equal): op1_ptr, op2_ptr,
+    res_ptr are fetched at the top (:40-42); after `_mpz_realloc (res, …)` the C re-reads res_ptr and those operand
+    pointers that do not point to TMP space (:58-63, :106-113, :223-231, :249-257).  The result is Int.land of the values
+    before the call (value-level part: C10 `mpz_and_spec`). -/
+theorem mpz_and_ptr_spec {s : St} (h : Inv s) {res op1 op2 : Nat} (hr : res < s.nv) (h1 : op1 < s.nv) (h2 : op2 < s.nv) :
+    ∃ s', mpz_and res op1 op2 s = .ok s' ∧ Inv s' ∧ s'.nv = s.nv ∧ s'.value res = Int.land (s.value op1) (s.value op2) ∧
+      ∀ i, i < s.nv → i ≠ res → s'.value i = s.value i :=
+  mpz_and_ok h hr h1 h2
+
+/-- mpz_xor (mpz/xor.c), same plumbing, allocation `MAX` / `MAX + 1`. -/
+theorem mpz_xor_ptr_spec {s : St} (h : Inv s) {res op1 op2 : Nat} (hr : res < s.nv) (h1 : op1 < s.nv) (h2 : op2 < s.nv) :
+    ∃ s', mpz_xor res op1 op2 s = .ok s' ∧ Inv s' ∧ s'.nv = s.nv ∧ s'.value res = Int.xor (s.value op1) (s.value op2) ∧
+      ∀ i, i < s.nv → i ≠ res → s'.value i = s.value i :=
+  mpz_xor_ok h hr h1 h2
+
+/-- the shared plumbing, for ANY sign-case table whose result fits the allocation it asks for (this is what mpz_ior
+    instantiates with `iorPlan`; that `iorPlan` fits — no carry out of MIN(sizes) limbs in the -,- case, ior.c:133-145 —
+    is not proved here, mpz_ior rests on the differential run). -/
+theorem logic_ptr_spec (plan : Bool → List Nat → Bool → List Nat → LogicPlan) (F : Bits.Z → Bits.Z → Bits.Z)
+    (hres : ∀ n1 a n2 b, (plan n1 a n2 b).result = F ⟨n1, a⟩ ⟨n2, b⟩)
+    (hwf : ∀ x y : Bits.Z, x.WF → y.WF → (F x y).WF)
+    (hfit : ∀ x y : Bits.Z, x.WF → y.WF → (F x y).mag.length ≤ (plan x.neg x.mag y.neg y.mag).need)
+    {s : St} (h : Inv s) {res op1 op2 : Nat} (hr : res < s.nv) (h1 : op1 < s.nv) (h2 : op2 < s.nv) :
+    ∃ s', logicV .c plan res op1 op2 s = .ok s' ∧ Res s s' res (F (Zof s op1) (Zof s op2)).toInt :=
+  logic_ok plan F hres hwf hfit h hr h1 h2
+
+/-- mpz_com (mpz/com.c): `_mpz_realloc (dst, …)` first, then `src_ptr = src->_mp_d`; dst = src allowed. -/
+theorem mpz_com_ptr_spec {s : St} (h : Inv s) {dst src : Nat} (hd : dst < s.nv) (hs : src < s.nv) :
+    ∃ s', mpz_com dst src s = .ok s' ∧ Inv s' ∧ s'.nv = s.nv ∧ s'.value dst = -(s.value src) - 1 ∧
+      ∀ i, i < s.nv → i ≠ dst → s'.value i = s.value i :=
+  mpz_com_ok h hd hs
+
+def exSt3 : St := ofInts [2 ^ 200 + 12345, -(2 ^ 70 + 3), 7, -(2 ^ 130)]
+-- res = op2 with a 2-limb block receiving a 4-limb result (x & -y, PN case): the block of res moves, op1_ptr is re-read
+example : look2 (mpz_and 1 0 1 exSt3) 2 = .ok [(2 ^ 200 + 12345, 4, 0), (2 ^ 200 + 12345, 4, 5)] := by
+  decide
+-- both negative, res = op1: both operands sit in TMP copies, res grows to 1 + MAX limbs
+example : look2 (mpz_and 1 1 3 exSt3) 2 = .ok [(2 ^ 200 + 12345, 4, 0), (-1361129467683753853853498429727072845824, 4, 6)] := by
+  decide
+example : look2 (mpz_xor 2 2 0 exSt3) 3 = .ok [(2 ^ 200 + 12345, 4, 0), (-(2 ^ 70 + 3), 2, 1), (2 ^ 200 + 12345 + 5, 4, 4)] := by
+  decide
+example : look2 (mpz_com 2 2 (ofInts [5, 6, 2 ^ 64 - 1])) 3 = .ok [(5, 1, 0), (6, 1, 1), (-(2 ^ 64), 2, 3)] := by decide
+-- negative examples: without the re-read after `_mpz_realloc` (and.c:58-63 removed), res = op2 and a result that does
+-- not fit the old block: the limb loop reads op2 through the stale pointer
+example : errOf2 (logicV { reread := false } xorPlan 2 0 2 exSt3) = "ub:read of a freed block" := by decide
+example : errOf2 (logicV { reread := false } iorPlan 2 0 2 exSt3) = "ub:read of a freed block" := by decide
+-- (for mpz_and the re-read is never exercised when res is an operand: the result is never longer than a non-negative
+--  operand, and negative operands are read from their TMP copies)
+-- mpz_com with `src_ptr = src->_mp_d` fetched before the realloc, dst = src, carry into a new limb
+example : errOf2 (mpz_comV { ptrAfterRealloc := false } 2 2 (ofInts [5, 6, 2 ^ 64 - 1])) = "ub:read of a freed block" := by
+  decide
 
 end Mpir.AliasMem
